@@ -139,8 +139,11 @@ def draw_options(rng, fmt, trajs, ref, meta, work, force=None):
         o["merge"] = True
         argv.append("--merge")
     if on("t_offset", .3):
-        o["t_offset"] = float(rng.normal() * 3) if rng.random() < .5 else float(meta["dt"] * 0.3 * rng.normal())
-        argv += ["--t_offset", repr(o["t_offset"])]
+        v = float(rng.normal() * 3) if rng.random() < .5 else float(meta["dt"] * 0.3 * rng.normal())
+        # argparse does not accept negative numbers in exponent notation as option values
+        tok = "%.9f" % v
+        o["t_offset"] = float(tok)
+        argv += ["--t_offset", tok]
     u = rng.random()
     if on("align", .25):
         o["align"] = True
